@@ -13,8 +13,9 @@ import (
 )
 
 func init() {
-	Register("C05", func(c *Ctx) { runC05(c, true) })
-	Register("C05.plain", func(c *Ctx) { runC05(c, false) })
+	Register("C05", func(c *Ctx) { runC05(c, true, false) })
+	Register("C05.plain", func(c *Ctx) { runC05(c, false, false) })
+	Register("C05.file", func(c *Ctx) { runC05(c, true, true) })
 }
 
 var attrSpellings = []string{
@@ -131,7 +132,7 @@ func (r *retainSet) addPtrs(m map[string]*PtrRef, why string) {
 	}
 }
 
-func runC05(c *Ctx, ambient bool) {
+func runC05(c *Ctx, ambient, fileRemote bool) {
 	t := c.T
 	w := c.NewWorld(sim.Faults{})
 	c.Res.Nontrivial = true
@@ -158,7 +159,15 @@ func runC05(c *Ctx, ambient bool) {
 	h.attrSpelling = spelling
 	h.fixedTracking = true
 	h.Init()
-	w.MustGit(u1, "remote", "add", "origin", remote)
+	if fileRemote {
+		// the prune remote is reached through a file:// URL: what it "holds"
+		// is what sits in <remote>/lfs/objects
+		w.FileRemotes = map[string]bool{remote: true}
+		w.MustGit(u1, "remote", "add", "origin", "file://"+remote)
+		c.Probe("file-remote")
+	} else {
+		w.MustGit(u1, "remote", "add", "origin", remote)
+	}
 	refsDays := []int{7, 0, 1, 3}[t.Choose(4, "fetchrecentrefsdays")]
 	commitsDays := []int{0, 1, 3, 7}[t.Choose(4, "fetchrecentcommitsdays")]
 	offsetDays := []int{3, 0, 1, 7}[t.Choose(4, "pruneoffsetdays")]
@@ -169,15 +178,19 @@ func runC05(c *Ctx, ambient bool) {
 	if exclude != "" {
 		w.MustGit(u1, "config", "lfs.fetchexclude", exclude)
 	}
-	w.ConfigureClone(u1, map[string]string{
+	settings := map[string]string{
 		"lfs.fetchrecentrefsdays":    fmt.Sprint(refsDays),
 		"lfs.fetchrecentcommitsdays": fmt.Sprint(commitsDays),
 		"lfs.pruneoffsetdays":        fmt.Sprint(offsetDays),
-	})
+	}
+	if fileRemote {
+		settings["lfs.url"] = ""
+	}
+	w.ConfigureClone(u1, settings)
 	// the remote prune checks against may be another one than the default,
 	// with its own LFS server (lfs.pruneremotetocheck, remote.<name>.lfsurl)
 	pruneRemote, pfr := "origin", w.Front
-	if ambient && t.Bool(1, 5, "prune-remote-is-a-second-remote") {
+	if ambient && !fileRemote && t.Bool(1, 5, "prune-remote-is-a-second-remote") {
 		remote2 := w.InitBare("remote2.git")
 		w.MustGit(u1, "remote", "add", "second", remote2)
 		pfr = w.AddServer()
@@ -312,6 +325,20 @@ func runC05(c *Ctx, ambient bool) {
 			}
 		}
 	}
+	// another worktree on a detached HEAD with commits of its own: reachable
+	// from no branch or tag, pushed nowhere
+	if fileRemote && t.Bool(1, 3, "detached-worktree-with-commits") {
+		wt := filepath.Join(w.Root, "wt3")
+		if _, code := w.Git(u1, "worktree", "add", "-q", "--detach", wt, "HEAD"); code == 0 {
+			worktrees = append(worktrees, wt)
+			for k := 0; k < 2; k++ {
+				os.WriteFile(filepath.Join(wt, "wt-detached.bin"), h.NewContent(), 0644)
+				w.Git(wt, "add", "wt-detached.bin")
+				w.GitEnv(wt, h.dateEnv(), "commit", "-q", "-m", fmt.Sprintf("on the detached HEAD of another worktree %d", k))
+			}
+			c.Probe("detached-worktree-with-commits")
+		}
+	}
 	nst := t.Choose(3, "n-stashes")
 	for i := 0; i < nst; i++ {
 		fs := h.existingFiles()
@@ -399,7 +426,22 @@ func runC05(c *Ctx, ambient bool) {
 	}
 	// objects removed from the server behind the client's back
 	serverLacks := map[string]bool{}
-	if verify {
+	if verify && fileRemote {
+		for _, o := range w.StoreOids(remote) {
+			if t.Bool(1, 4, "server-loses") {
+				w.StoreDelete(remote, o)
+			}
+		}
+		have := map[string]bool{}
+		for _, o := range w.StoreOids(remote) {
+			have[o] = true
+		}
+		for o := range LocalObjects(g) {
+			if !have[o] {
+				serverLacks[o] = true
+			}
+		}
+	} else if verify {
 		var so []string
 		// (everything that is on neither server is "lacking" too: with two
 		// servers the prune remote's may never have received an object)
@@ -457,7 +499,14 @@ func runC05(c *Ctx, ambient bool) {
 	// (an unpushed rename or re-add of pushed content is pushed). Trees rather
 	// than diffs: what a merge's own resolution introduces counts as well.
 	pushedOids := w.ReachablePointers(u1, "--remotes="+pruneRemote)
-	unpushed, _ := w.GitQ(u1, "rev-list", "HEAD", "--branches", "--tags", "--not", "--remotes="+pruneRemote)
+	starts := []string{"rev-list", "HEAD", "--branches", "--tags"}
+	for _, wt := range worktrees[1:] {
+		// the HEAD of every other worktree is a starting point like this one's
+		if sha, code := w.GitQ(wt, "rev-parse", "-q", "--verify", "HEAD"); code == 0 {
+			starts = append(starts, strings.TrimSpace(sha))
+		}
+	}
+	unpushed, _ := w.GitQ(u1, append(starts, "--not", "--remotes="+pruneRemote)...)
 	for _, cm := range strings.Fields(unpushed) {
 		if len(cm) != 40 {
 			continue
